@@ -228,3 +228,23 @@ check('C17', 'exploration',
       'DESIGN.md §3 C17')
 for k in CHECKS:
     NOT_YET.pop(k, None)
+
+check('C20', 'model_checking',
+      'explicit-state search over trainer event histories with the real fit as transition function and exact state merging; exhaustive split edges; TLC cache model replayed',
+      'Purity: every public entry point of the mixture / beamforming / masking / alignment / metric modules (135 '
+      'drivers; every __all__ name must be covered) is called with read-only and with writeable column-major / '
+      'strided arguments, bytes compared afterwards, the call repeated (re-seeded) and compared bit for bit. '
+      'Histories: for ten trainer configurations (stateful CWMM/CBMM/Watson/Bingham with and without explicit '
+      'dimension / other max_concentration, and stateless ones) a breadth-first search over all event sequences '
+      '{fit A(D=3,K=2), fit B(D=3,K=3,saliency,tying), fit C(D=2), fit with num_classes+seed, fit_predict, "use '
+      'another trainer object with other settings"} with exact merging on the pickled deep trainer state runs to '
+      'closure, and independently every history to depth 3 (quick) / 5 (thorough) without merging; every transition '
+      'is compared with the same event on a fresh trainer computed in a pristine python process; a different feature '
+      'dimension must be rejected and leave the state unchanged. Split: all edges fit(initialization=model_i, '
+      'iterations=j), i+j<=10 (quick) / 20 land on model_(i+j) for 3 data sets x 6 options. TrainerCache.tla is '
+      'model-checked by TLC and every maximal path replayed on the four stateful classes. An AST scan rejects '
+      'module-/class-level mutable state and memoising decorators in the library.',
+      'set_snr(inplace=True) is excepted as documented; get_lcmv_vector_souden raises NotImplementedError by design.',
+      'DESIGN.md §3 C20, Appendix B')
+for k in CHECKS:
+    NOT_YET.pop(k, None)
